@@ -5,6 +5,7 @@ CONSTANTS
   Esc = "raw"
   Header = "first"
   Merge = "grid"
+  Sep = "each"
   MaxSpecial = 1
   FullCells = 0
 INVARIANTS RoundTrip
